@@ -9,6 +9,7 @@
 #include <algorithm>
 #include <atomic>
 #include <cctype>
+#include <deque>
 #include <chrono>
 #include <fstream>
 #include <functional>
@@ -885,35 +886,113 @@ protected:
         }
       }
 
-      // Process request in thread pool to avoid blocking transport
-      // Use tryEnqueue for backpressure - reject requests if queue is full
-      if (!_threadPool.tryEnqueue([this, sid, requestData]()
-                                  { processHttpRequest(sid, requestData); }))
+      // Process request in thread pool to avoid blocking transport - but never
+      // two requests of the same connection at once (see SessionInfo).
+      bool dispatchNow = false;
+      bool tooManyPending = false;
       {
-        // Thread pool is overloaded, send 503 Service Unavailable
-        iora::core::Logger::warning(
-          "HttpServer: Rejecting request due to thread pool overload "
-          "(queue: " +
-          std::to_string(_threadPool.getPendingTaskCount()) + "/" + std::to_string(1024) +
-          ", utilization: " + std::to_string(static_cast<int>(_threadPool.getQueueUtilization())) +
-          "%)");
-        sendErrorResponse(sid, 503, "Service Unavailable",
-                          "Server overloaded - please retry later");
+        std::lock_guard<std::mutex> lock(_sessionMutex);
+        auto it = _sessionInfo.find(sid);
+        if (it == _sessionInfo.end())
+        {
+          return; // Session was closed
+        }
+        if (!it->second.requestInFlight)
+        {
+          it->second.requestInFlight = true;
+          dispatchNow = true;
+        }
+        else if (it->second.pendingRequests.size() >= SessionInfo::MAX_PENDING_REQUESTS_PER_SESSION)
+        {
+          tooManyPending = true;
+        }
+        else
+        {
+          it->second.pendingRequests.push_back(requestData);
+        }
       }
-      else if (_threadPool.isUnderHighLoad())
+      if (tooManyPending)
       {
-        // Log warning when approaching capacity
-        iora::core::Logger::warning(
-          "HttpServer: High load detected (queue utilization: " +
-          std::to_string(static_cast<int>(_threadPool.getQueueUtilization())) + "%, " +
-          "active threads: " + std::to_string(_threadPool.getActiveThreadCount()) + "/" +
-          std::to_string(_threadPool.getTotalThreadCount()) + ")");
+        iora::core::Logger::error("HttpServer: Too many pipelined requests pending for session " +
+                                  std::to_string(sid) + " - closing connection");
+        closeSession(sid);
+        return;
+      }
+      if (dispatchNow)
+      {
+        dispatchRequest(sid, requestData);
       }
     }
   }
 
+  /// \brief Hand one complete request to the thread pool. When it has been
+  /// processed, the next pipelined request of the same connection (if any) is
+  /// dispatched, so responses leave in request order.
+  void dispatchRequest(SessionId sid, const std::string &requestData)
+  {
+    // Use tryEnqueue for backpressure - reject requests if queue is full
+    if (!_threadPool.tryEnqueue(
+          [this, sid, requestData]()
+          {
+            const bool connectionContinues = processHttpRequest(sid, requestData);
+            finishRequest(sid, connectionContinues);
+          }))
+    {
+      // Thread pool is overloaded, send 503 Service Unavailable
+      iora::core::Logger::warning(
+        "HttpServer: Rejecting request due to thread pool overload "
+        "(queue: " +
+        std::to_string(_threadPool.getPendingTaskCount()) + "/" + std::to_string(1024) +
+        ", utilization: " + std::to_string(static_cast<int>(_threadPool.getQueueUtilization())) +
+        "%)");
+      sendErrorResponse(sid, 503, "Service Unavailable",
+                        "Server overloaded - please retry later");
+    }
+    else if (_threadPool.isUnderHighLoad())
+    {
+      // Log warning when approaching capacity
+      iora::core::Logger::warning(
+        "HttpServer: High load detected (queue utilization: " +
+        std::to_string(static_cast<int>(_threadPool.getQueueUtilization())) + "%, " +
+        "active threads: " + std::to_string(_threadPool.getActiveThreadCount()) + "/" +
+        std::to_string(_threadPool.getTotalThreadCount()) + ")");
+    }
+  }
+
+  /// \brief Called on the worker after a request was processed: dispatch the
+  /// next pipelined request of this connection, or mark the connection idle.
+  /// When the connection is ending (close requested, error, upgrade) nothing
+  /// queued behind the finished request is run.
+  void finishRequest(SessionId sid, bool connectionContinues)
+  {
+    std::string next;
+    {
+      std::lock_guard<std::mutex> lock(_sessionMutex);
+      auto it = _sessionInfo.find(sid);
+      if (it == _sessionInfo.end())
+      {
+        return;
+      }
+      if (!connectionContinues)
+      {
+        it->second.pendingRequests.clear(); // requestInFlight stays set: nothing more is dispatched
+        return;
+      }
+      if (it->second.pendingRequests.empty())
+      {
+        it->second.requestInFlight = false;
+        return;
+      }
+      next = std::move(it->second.pendingRequests.front());
+      it->second.pendingRequests.pop_front();
+    }
+    dispatchRequest(sid, next);
+  }
+
   /// \brief Process a complete HTTP request
-  void processHttpRequest(SessionId sid, const std::string &requestData)
+  /// \return true if the connection stays open for further HTTP requests, false
+  ///         if it is being closed or was taken over (upgrade, SSE, shutdown).
+  bool processHttpRequest(SessionId sid, const std::string &requestData)
   {
     iora::core::Logger::debug("HttpServer::processHttpRequest() - "
                               "Processing request for session " +
@@ -955,9 +1034,10 @@ protected:
           _transport->close(sid);
         }
       }
-      return;
+      return false;
     }
 
+    bool connectionContinues = false;
     try
     {
       // Parse HTTP request
@@ -1092,7 +1172,7 @@ protected:
                     remaining.size());
                 }
               }
-              return; // Skip normal route dispatch
+              return false; // Skip normal route dispatch (the connection now speaks another protocol)
             }
             break;
           }
@@ -1195,7 +1275,7 @@ protected:
         iora::core::Logger::debug(
           "HttpServer::processHttpRequest() - response suppressed for session " +
           std::to_string(sid) + " (handler took over the connection)");
-        return;
+        return false;
       }
 
       // RFC 9110 §9.3.2: a HEAD response MUST carry no body on the wire, on
@@ -1318,6 +1398,7 @@ protected:
           _transport->close(sid);
         }
       }
+      connectionContinues = sendSucceeded && !shouldCloseConnection;
       iora::core::Logger::debug("HttpServer::processHttpRequest() - "
                                 "Completed successfully for session " +
                                 std::to_string(sid));
@@ -1382,6 +1463,7 @@ protected:
 
     iora::core::Logger::debug("HttpServer::processHttpRequest() - Exiting for session " +
                               std::to_string(sid));
+    return connectionContinues;
   }
 
   /// \brief Returned by findChunkedRequestEnd for a body that can never become valid.
@@ -2224,6 +2306,14 @@ private:
     std::uint16_t peerPort = 0;
     bool connectionKeepAlive = true;
     std::string httpVersion = "1.1"; // Default to HTTP/1.1
+
+    // Pipelined requests of one connection are processed one at a time, in
+    // arrival order: HTTP/1.1 responses must be written in the order the
+    // requests were received (RFC 9112 §9.3.2). While a request is in flight,
+    // later ones wait here (bounded) and are dispatched as each one finishes.
+    bool requestInFlight = false;
+    std::deque<std::string> pendingRequests;
+    static constexpr std::size_t MAX_PENDING_REQUESTS_PER_SESSION = 128;
 
     // Buffer management constants
     static constexpr std::size_t MAX_BUFFER_SIZE = 1024 * 1024;    // 1MB max per session
